@@ -7,7 +7,7 @@ from pv import env, exact, gens
 
 ID = "C03"
 LEVEL = "exploration"
-N = {"quick": 500, "thorough": 10000}
+N = {"quick": 1500, "thorough": 10000}
 RULE = ("pairs (L,R) of constraint lists / contracts / component-vs-contract generated per class (identical, sublist, "
         "weakened, farkas combination, scaled, separated, unrelated, unbounded, infeasible-left, infeasible-right, "
         "empty lists, guarantee inclusion only under the right assumptions, interface mismatch); expected answer decided "
